@@ -302,6 +302,79 @@ def z_disjoint():
             "queries": S_.queries, "solver_s": round(S_.solver_s, 3)}
 
 
+def z_compiled():
+    """E-Z3: for every ACL text of the grammar (all masks, merged pairs, prio/overlap blocks) the tree that the real
+    compile_acl_text builds is compared rule by rule with the reference parse: same rule rows per level and scope, same
+    cant_delete / prio / writers, and — for ALL rows of the domain — the same direct and reverse languages."""
+    import re as _re
+    import z3
+    from vt import rx2z3 as rx
+    from annet.annlib.rbparser.acl import compile_acl_text
+    from annet.generators.result import _combine_acl_text
+    S_ = rx.Solver()
+    dom = rx.row_domain()
+    fails = 0
+    texts = [[("ga", acl_of(i))] for i in range(0, NACL, 5)] + [[("ga", acl_text(0b1000000 | i))] for i in range(8)] + \
+            [[("ga", acl_of(a)), ("gb", acl_of(b))] for (a, b) in DEEP_PAIRS] + [[("ga", acl_text(0b000010)), ("gb", OVERLAP)]]
+    lo, hi = rt.shard_range(len(texts))
+    cache = {}
+
+    def lang(p):
+        if p.pattern not in cache:
+            cache[p.pattern] = rx.match_lang(p)
+        return cache[p.pattern]
+
+    def compare(real, ref_rules, where):
+        nonlocal fails
+        want = {(r.row, r.is_global): r for r in ref_rules}
+        got = {}
+        for scope in ("local", "global"):
+            for rid, rule in real[scope].items():
+                got[(rid, scope == "global")] = rule
+        if set(got) != set(want):
+            fails += 1
+            rt.record({"where": where, "annet": sorted(map(str, got)), "reference": sorted(map(str, want))}, False, [where, "rows"],
+                      fingerprint="C06:compiled-acl:rule-set-differs")
+            return
+        for key, rule in got.items():
+            r = want[key]
+            attrs = rule["attrs"]
+            meta_ok = list(attrs["cant_delete"]) == list(r.cant_delete) and attrs["prio"] == r.prio and \
+                list(attrs["generator_names"]) == [w for w in r.writers]
+            if not meta_ok:
+                fails += 1
+                rt.record({"where": where, "rule": key[0], "annet": [attrs["cant_delete"], attrs["prio"], attrs["generator_names"]],
+                           "reference": [r.cant_delete, r.prio, r.writers]}, False, [where, key[0], "meta"],
+                          fingerprint="C06:compiled-acl:params-differ")
+            for (k, refre) in (("direct_regexp", r.rx), ("reverse_regexp", r.rrx)):
+                v, m = S_.check(z3.InRe(S_.x, dom), z3.Xor(z3.InRe(S_.x, lang(attrs[k])), z3.InRe(S_.x, lang(refre))))
+                ok = v == "unsat"
+                rt.record({"where": where, "rule": key[0], "which": k, "row": rx.z3_unescape(m) if v == "sat" else None}, ok,
+                          [where, key[0], k], detail={"annet": attrs[k].pattern, "reference": refre.pattern},
+                          fingerprint="C06:compiled-acl:%s-language-differs" % k)
+                fails += 0 if ok else 1
+            if rule["children"]:
+                compare(rule["children"], r.children, where + " / " + key[0])
+    for ti in range(lo, hi):
+        gens = texts[ti]
+        if len(gens) == 1:
+            text = gens[0][1]
+            ref_rules = refacl.parse_acl([("", text)], PREFIX)
+            for r in _all(ref_rules):
+                r.writers = []
+        else:
+            text = _combine_acl_text({n: _G(n, t) for n, t in gens}, lambda g: g.acl)
+            ref_rules = refacl.parse_acl(gens, PREFIX)
+        compare(compile_acl_text(text, VENDOR), ref_rules, "acl#%d" % ti)
+    return {"verdict": "refuted" if fails else "confirmed", "queries": S_.queries, "solver_s": round(S_.solver_s, 3)}
+
+
+def _all(rules):
+    for r in rules:
+        yield r
+        yield from _all(r.children)
+
+
 def h_twin(case: int) -> bool:
     """
     pre: 0 <= case < NACL
@@ -325,6 +398,7 @@ def plan(tier):
     q = tier == "quick"
     return [
         dict(name="grammar.disjoint", func="z_disjoint", kind="py", shards=1, timeout=200),
+        dict(name="compiled.vs.reference", func="z_compiled", kind="py", shards=4, timeout=280 if q else 900),
         dict(name="deep", func="h_deep", shards=16 if q else 48, timeout=280 if q else 2400),
         dict(name="wide", func="h_wide", shards=16 if q else 32, timeout=280 if q else 2400),
         dict(name="prio", func="h_prio", shards=4, timeout=280 if q else 900),
@@ -334,6 +408,8 @@ def plan(tier):
 
 def replay(obligation, case):
     global SLOTS
+    if "where" in case:
+        return {"ok": False, "detail": case, "fingerprint": "C06:compiled-acl:mismatch"}
     if case.get("prio"):
         tb = PB[case["b"]] if isinstance(PB[case["b"]], str) else acl_text(PB[case["b"]])
         ok, detail, kind, _ = check_filter(acl_text(0b1000000 | case["a"]), tb, unrank(PRIO_SLOTS, case["tree_idx"]))
